@@ -54,6 +54,8 @@ func (r c01Resp) spec(now time.Time) RS {
 	case "":
 	case "0":
 		h = append(h, [2]string{"Expires", "0"})
+	case "empty": // present but empty: an invalid date, i.e. already expired (RFC 9111 §5.3) — not "no Expires"
+		h = append(h, [2]string{"Expires", ""})
 	case "0+3600": // two field lines, the first one invalid: the response is already expired (RFC 9111 §5.3), whatever follows
 		h = append(h, [2]string{"Expires", "0"}, [2]string{"Expires", httpDate(date.Add(secs(3600)))})
 	default:
@@ -80,8 +82,8 @@ func ifs(c bool, s string) string {
 }
 
 var (
-	c01MaxAgeQ = []string{"", "0", "10", "x", "2147483648", "9223372037", "18446744074"}
-	c01Expires = []string{"", "10", "0s", "-10", "0", "0+3600"}
+	c01MaxAgeQ = []string{"", "0", "10", "x", "2147483648", "9223372037", "18446744074", "1, max-age=3600"}
+	c01Expires = []string{"", "10", "0s", "-10", "0", "0+3600", "empty"}
 	c01LM      = []string{"", "-100", "100", "-1500000000"}
 	c01Date    = []string{"now", "-5", "+5", "absent", "invalid", "year 1700"}
 	c01Age     = []string{"", "0", "5", "15", "x", "9223372037", "5, 7", "9223372036854775808", "99999999999999999999"}
